@@ -317,4 +317,296 @@ Section Correct.
     - inversion H; subst. exists env1, vc. split; [exact E|]. split; [apply mono_refl|]. split; [apply ext_refl|].
       split; [exact Hn|]. split; [exact Hr|]. discriminate.
   Qed.
+
+  (* ---------- one source node ---------- *)
+  Definition node_priv (priv : list Z) (i : Z) (nd : node) (flags flags' : list bool) : Prop :=
+    match n_op nd with
+    | OInput _ => exists b, flags = b :: flags' /\ mem i priv = b
+    | OConstant _ _ | OZeros _ | OOnes _ => flags' = flags /\ mem i priv = false
+    | _ => flags' = flags /\ mem i priv = is_one_node_private (n_deps nd) priv
+    end.
+
+  Lemma priv_spec_cons nd r i flags priv :
+    priv_spec (nd :: r) i flags priv -> exists flags', node_priv priv i nd flags flags' /\ priv_spec r (i + 1) flags' priv.
+  Proof.
+    cbn [priv_spec]. unfold node_priv. destruct (n_op nd); try (intros [H1 H2]; eauto; fail).
+    destruct flags as [|b fl]; [contradiction|]. intros [H1 H2]. eauto.
+  Qed.
+
+  (* what the first half of compile_node (the new node, before resharing) establishes *)
+  Definition part1 (priv : list Z) (i : Z) (out out1 : list node) (n1 : Z) (flags' : list bool)
+             (ins0c env_c ins_c env_s : list rv) (st' : list rv * list rv) : Prop :=
+    exists vs ins_s1 env1 ins_c1 vc,
+      st' = (env_s ++ [vs], ins_s1) /\ evals ins0c out1 env1 ins_c1 /\ mono env_c env1 /\ ext out out1 /\
+      znth env1 n1 = Ok vc /\ rel (mem i priv) vs vc /\ (mem i priv = true -> shty out1 n1) /\
+      inrel flags' ins_s1 ins_c1.
+
+  Lemma input_case priv i t nd omap out out1 n1 flags flags' ins0c env_c ins_c env_s ins_s st' :
+    n_op nd = OInput t -> is_leaf t = true ->
+    apply_op priv i (OInput t) [] [] out = Ok (out1, n1) ->
+    node_priv priv i nd flags flags' ->
+    dstp (Some (env_s, ins_s)) nd = Some st' ->
+    evals ins0c out env_c ins_c -> inrel flags ins_s ins_c -> Inv priv omap env_s env_c out ->
+    part1 priv i out out1 n1 flags' ins0c env_c ins_c env_s st'.
+  Proof.
+    intros Ho Lt H1 Np Hs E Hin _. unfold node_priv in Np. rewrite Ho in Np. destruct Np as (b & -> & Hb).
+    unfold dstep in Hs. rewrite Ho in Hs. destruct ins_s as [|v ins']; [discriminate|]. inversion Hs; subst st'; clear Hs.
+    unfold apply_op in H1. rewrite Hb in H1.
+    destruct b; inversion Hin as [fl0 | fl0 v0 s0 c Hrest | fl0 x a b c0 s0 c Hsum Hrest]; subst; cbn [negb] in H1.
+    - destruct (emit_spec _ _ _ _ _ _ H1) as (ts & ty1 & Hm & Hi & -> & ->).
+      cbn [mapM] in Hm. inversion Hm; subst ts. apply infer_input in Hi. subst ty1.
+      exists (L (radd (radd a b) c0)), ins', (env_c ++ [T3 a b c0]), c, (T3 a b c0).
+      split; [reflexivity|]. split; [eapply evals_snoc_input; eauto; reflexivity|]. split; [apply mono_snoc|].
+      split; [apply ext_app|]. split; [rewrite <- (evals_length _ _ _ _ _ _ _ _ _ _ _ _ _ _ E); apply znth_last|].
+      split; [rewrite Hb; exists (radd (radd a b) c0), a, b, c0; auto|]. split; [|assumption].
+      intros _. eexists. split; [apply out_ty_last|]. cbn [n_ty]. exists t, t, t. auto.
+    - destruct (emit_spec _ _ _ _ _ _ H1) as (ts & ty1 & _ & _ & -> & ->).
+      exists v, ins', (env_c ++ [v]), c, v.
+      split; [reflexivity|]. split; [eapply evals_snoc_input; eauto; reflexivity|]. split; [apply mono_snoc|].
+      split; [apply ext_app|]. split; [rewrite <- (evals_length _ _ _ _ _ _ _ _ _ _ _ _ _ _ E); apply znth_last|].
+      split; [rewrite Hb; reflexivity|]. split; [rewrite Hb; discriminate | assumption].
+  Qed.
+
+  Lemma const_case priv i nd omap out out1 n1 flags flags' ins0c env_c ins_c env_s ins_s st' :
+    (exists t, (n_op nd = OZeros t \/ n_op nd = OOnes t \/ exists v, n_op nd = OConstant t v) /\ is_leaf t = true) ->
+    emit (n_op nd) [] [] out = Ok (out1, n1) ->
+    node_priv priv i nd flags flags' ->
+    dstp (Some (env_s, ins_s)) nd = Some st' ->
+    evals ins0c out env_c ins_c -> inrel flags ins_s ins_c -> Inv priv omap env_s env_c out ->
+    part1 priv i out out1 n1 flags' ins0c env_c ins_c env_s st'.
+  Proof.
+    intros (t & Ho & Lt) H1 Np Hs E Hin _.
+    assert (Hni : is_input (n_op nd) = false) by (destruct Ho as [-> | [-> | (v & ->)]]; reflexivity).
+    assert (Hth : thm_op (n_op nd) = true) by (destruct Ho as [-> | [-> | (v & ->)]]; exact Lt).
+    destruct (dstep_noninput _ _ _ _ Hni Hs) as (vsl & v & Hm & Hv & ->).
+    assert (vsl = []) as -> by (destruct Ho as [Ho | [Ho | (c & Ho)]]; rewrite Ho in Hv; destruct vsl; [reflexivity | discriminate | reflexivity | discriminate | reflexivity | discriminate]).
+    assert (Np' : flags' = flags /\ mem i priv = false) by (unfold node_priv in Np; destruct Ho as [Ho | [Ho | (c & Ho)]]; rewrite Ho in Np; exact Np).
+    destruct Np' as [-> Hb].
+    rewrite (dnode_index _ _ (zlen env_c) _ Hth) in Hv.
+    destruct (emit_evals R r0 radd rmul rsub atom catom one lin bil _ _ _ _ _ _ _ _ _ [] v H1 E Hni eq_refl Hv) as [Ev F].
+    destruct (emit_ty _ _ _ _ _ _ H1) as (_ & _ & _ & _ & _ & X).
+    exists v, ins_s, (env_c ++ [v]), ins_c, v.
+    split; [reflexivity|]. split; [exact Ev|]. split; [apply mono_snoc|]. split; [exact X|]. split; [exact F|].
+    split; [rewrite Hb; reflexivity|]. split; [rewrite Hb; discriminate | assumption].
+  Qed.
+
+  Lemma leaf2_inv f vsl v : leaf2 R f vsl = Some v -> exists x y, vsl = [L x; L y] /\ v = L (f x y).
+  Proof.
+    unfold leaf2. destruct vsl as [|[x| |] [|[y| |] [|]]]; try discriminate. intros H; inversion H; eauto.
+  Qed.
+
+  Lemma list2_of_length {A} (l : list A) : length l = 2%nat -> exists a b, l = [a; b].
+  Proof. destruct l as [|a [|b [|]]]; try discriminate. eauto. Qed.
+  Lemma list1_of_length {A} (l : list A) : length l = 1%nat -> exists a, l = [a].
+  Proof. destruct l as [|a [|]]; try discriminate. eauto. Qed.
+
+  Lemma arith_case g priv i nd omap out out1 n1 flags flags' ins0c env_c ins_c env_s ins_s st' :
+    (n_op nd = OAdd /\ g = GAdd) \/ (n_op nd = OSubtract /\ g = GSub) \/ (n_op nd = OMultiply /\ g = GBil OMultiply) ->
+    (let* d0 := znth (n_deps nd) 0 in let* d1 := znth (n_deps nd) 1 in
+     let* a := znth omap d0 in let* b := znth omap d1 in emit_gadget g [a; b] out) = Ok (out1, n1) ->
+    node_priv priv i nd flags flags' ->
+    dstp (Some (env_s, ins_s)) nd = Some st' ->
+    evals ins0c out env_c ins_c -> inrel flags ins_s ins_c -> Inv priv omap env_s env_c out ->
+    part1 priv i out out1 n1 flags' ins0c env_c ins_c env_s st'.
+  Proof.
+    intros Ho H1 Np Hs E Hin [_ Hinv].
+    assert (Hni : is_input (n_op nd) = false) by (destruct Ho as [[-> _] | [[-> _] | [-> _]]]; reflexivity).
+    assert (Hg : elem_gadget g = true) by (destruct Ho as [[_ ->] | [[_ ->] | [_ ->]]]; reflexivity).
+    destruct (dstep_noninput _ _ _ _ Hni Hs) as (vsl & v & Hm & Hv & ->).
+    assert (Hxy : exists x y, vsl = [L x; L y] /\ v = L (gadget_plain R radd rmul rsub bil g x y)).
+    { destruct Ho as [[Ho ->] | [[Ho ->] | [Ho ->]]]; rewrite Ho in Hv; cbn [deval_node] in Hv; apply leaf2_inv in Hv; exact Hv. }
+    destruct Hxy as (x & y & -> & ->).
+    destruct (list2_of_length _ (eq_sym (mapM_ok_length _ _ _ Hm))) as (d0 & d1 & Hd).
+    rewrite Hd in Hm, H1. destruct (mapM2 _ _ _ _ Hm) as (vx & vy & Hl & Hx & Hy). inversion Hl; subst vx vy; clear Hl.
+    assert (Np' : flags' = flags /\ mem i priv = mem d0 priv || mem d1 priv).
+    { unfold node_priv in Np. rewrite Hd in Np. unfold is_one_node_private in Np. cbn [existsb] in Np. rewrite orb_false_r in Np.
+      destruct Ho as [[Ho _] | [[Ho _] | [Ho _]]]; rewrite Ho in Np; exact Np. }
+    destruct Np' as [-> Hb].
+    destruct (Hinv _ _ Hx) as (ka & va & Hka & Hva & Ra & Sa). destruct (Hinv _ _ Hy) as (kb & vb & Hkb & Hvb & Rb & Sb).
+    change (znth [d0; d1] 0) with (Ok d0) in H1. change (znth [d0; d1] 1) with (Ok d1) in H1. cbn [bind] in H1.
+    rewrite Hka, Hkb in H1. cbn [bind] in H1.
+    destruct (gadget_node_sem _ _ _ _ _ _ _ _ _ _ _ _ _ _ _ Hg H1 E Hva Hvb Ra Rb Sa Sb) as (vc & Ev & F & Rc & Sc & X).
+    exists (L (gadget_plain R radd rmul rsub bil g x y)), ins_s, (env_c ++ [vc]), ins_c, vc.
+    split; [reflexivity|]. split; [exact Ev|]. split; [apply mono_snoc|]. split; [exact X|]. split; [exact F|].
+    rewrite Hb. split; [exact Rc|]. split; [exact Sc | assumption].
+  Qed.
+
+  Lemma dnode_lin o k vsl v : is_lin_op o = true -> dnode k o vsl = Some v -> exists x, vsl = [L x] /\ v = L (lin o x).
+  Proof.
+    intros Hl. destruct o; try discriminate; cbn [deval_node]; rewrite Hl;
+      (destruct vsl as [|[x| |] [|]]; try discriminate; intros H; inversion H; eauto).
+  Qed.
+
+  Lemma lin_case o priv i nd omap out out1 n1 flags flags' ins0c env_c ins_c env_s ins_s st' :
+    n_op nd = o -> is_lin_op o = true ->
+    (let* d0 := znth (n_deps nd) 0 in let* a := znth omap d0 in apply_op priv d0 o [a] (n_deps nd) out) = Ok (out1, n1) ->
+    node_priv priv i nd flags flags' ->
+    dstp (Some (env_s, ins_s)) nd = Some st' ->
+    evals ins0c out env_c ins_c -> inrel flags ins_s ins_c -> Inv priv omap env_s env_c out ->
+    part1 priv i out out1 n1 flags' ins0c env_c ins_c env_s st'.
+  Proof.
+    intros Ho Hl H1 Np Hs E Hin [_ Hinv].
+    assert (Hni : is_input o = false) by (destruct o; try discriminate; reflexivity).
+    rewrite <- Ho in Hni. destruct (dstep_noninput _ _ _ _ Hni Hs) as (vsl & v & Hm & Hv & ->).
+    rewrite Ho in Hv. destruct (dnode_lin _ _ _ _ Hl Hv) as (x & -> & ->).
+    destruct (list1_of_length _ (eq_sym (mapM_ok_length _ _ _ Hm))) as (d0 & Hd).
+    rewrite Hd in Hm, H1. cbn [mapM] in Hm. destruct (znth env_s d0) as [vx| | |] eqn:Hx; try discriminate.
+    cbn [bind] in Hm. inversion Hm; subst vx; clear Hm.
+    assert (Np' : flags' = flags /\ mem i priv = mem d0 priv).
+    { unfold node_priv in Np. rewrite Hd in Np. unfold is_one_node_private in Np. cbn [existsb] in Np. rewrite orb_false_r in Np.
+      rewrite Ho in Np. destruct o; try discriminate; exact Np. }
+    destruct Np' as [-> Hb].
+    destruct (Hinv _ _ Hx) as (ka & va & Hka & Hva & Ra & Sa).
+    change (znth [d0] 0) with (Ok d0) in H1. cbn [bind] in H1. rewrite Hka in H1. cbn [bind] in H1.
+    unfold part1. rewrite Hb. destruct (mem d0 priv) eqn:Hp.
+    - apply rel_true_inv in Ra as (a0 & a1 & a2 & -> & Sx).
+      destruct (apply_lin_private_sem _ _ _ _ _ _ _ _ _ _ _ _ _ Hl Hp H1 E Hva (Sa eq_refl)) as (env1 & Ev & M & X & F & Sc).
+      exists (L (lin o x)), ins_s, env1, ins_c, (T3 (lin o a0) (lin o a1) (lin o a2)).
+      split; [reflexivity|]. split; [exact Ev|]. split; [exact M|]. split; [exact X|]. split; [exact F|].
+      split; [|split; [intros _; exact Sc | assumption]].
+      exists (lin o x), (lin o a0), (lin o a1), (lin o a2). split; [reflexivity|]. split; [reflexivity|].
+      rewrite <- Sx, !lin_add. reflexivity.
+    - cbn [rel] in Ra. subst va. unfold apply_op in H1. rewrite Hp in H1. cbn [negb] in H1.
+      destruct (step_lin R r0 radd rmul rsub atom catom one lin bil _ _ _ _ _ _ _ _ _ Hl H1 E Hva) as [Ev F].
+      destruct (emit_ty _ _ _ _ _ _ H1) as (_ & _ & _ & _ & _ & X).
+      exists (L (lin o x)), ins_s, (env_c ++ [L (lin o x)]), ins_c, (L (lin o x)).
+      split; [reflexivity|]. split; [exact Ev|]. split; [apply mono_snoc|]. split; [exact X|]. split; [exact F|].
+      split; [reflexivity|]. split; [discriminate | assumption].
+  Qed.
+
+  Lemma keys_ok_mono keys env env' : mono env env' -> keys_ok keys env -> keys_ok keys env'.
+  Proof. intros M K k Hk. destruct (K _ Hk) as (a & b & c & H). eauto 6. Qed.
+
+  Lemma compile_node_sem priv resh keys i nd omap out out' nn flags flags' ins0c env_c ins_c env_s ins_s st' :
+    compile_node priv resh keys i nd omap out = Ok (out', nn) ->
+    thm_op (n_op nd) = true ->
+    node_priv priv i nd flags flags' ->
+    dstp (Some (env_s, ins_s)) nd = Some st' ->
+    evals ins0c out env_c ins_c -> inrel flags ins_s ins_c -> keys_ok keys env_c ->
+    Inv priv omap env_s env_c out ->
+    exists vs ins_s1 env_c' ins_c' vc,
+      st' = (env_s ++ [vs], ins_s1) /\ evals ins0c out' env_c' ins_c' /\ mono env_c env_c' /\ ext out out' /\
+      znth env_c' nn = Ok vc /\ rel (mem i priv) vs vc /\ (mem i priv = true -> shty out' nn) /\
+      inrel flags' ins_s1 ins_c'.
+  Proof.
+    intros H Hth Np Hs E Hin Hk HI. unfold compile_node in H.
+    apply bind_ok in H as ([out1 n1] & H1 & H2).
+    assert (P1 : part1 priv i out out1 n1 flags' ins0c env_c ins_c env_s st').
+    { destruct (n_op nd) eqn:Ho; try discriminate.
+      - eapply input_case; [exact Ho | exact Hth | exact H1 | exact Np | exact Hs | exact E | exact Hin | exact HI].
+      - eapply const_case; [exists t; split; [rewrite Ho; eauto 6 | exact Hth] | rewrite Ho; exact H1 | exact Np | exact Hs | exact E | exact Hin | exact HI].
+      - eapply const_case; [exists t; split; [rewrite Ho; eauto 6 | exact Hth] | rewrite Ho; exact H1 | exact Np | exact Hs | exact E | exact Hin | exact HI].
+      - eapply (arith_case GAdd); [rewrite Ho; auto | exact H1 | exact Np | exact Hs | exact E | exact Hin | exact HI].
+      - eapply (arith_case GSub); [rewrite Ho; auto | exact H1 | exact Np | exact Hs | exact E | exact Hin | exact HI].
+      - eapply (arith_case (GBil OMultiply)); [rewrite Ho; auto | | exact Np | exact Hs | exact E | exact Hin | exact HI].
+        apply bind_ok in H1 as (d0 & Hd0 & H1). apply bind_ok in H1 as (d1 & Hd1 & H1).
+        apply bind_ok in H1 as (a & Ha & H1). apply bind_ok in H1 as (b & Hb & H1).
+        apply bind_ok in H1 as (ta & Hta & H1). apply bind_ok in H1 as (tb & Htb & H1).
+        rewrite Hd0, Hd1. cbn [bind]. rewrite Ha, Hb. cbn [bind].
+        destruct (is_tuple ta && is_tuple tb); [destruct keys; [exact H1 | discriminate] | exact H1].
+      - eapply lin_case; [exact Ho | exact Hth | exact H1 | exact Np | exact Hs | exact E | exact Hin | exact HI].
+      - eapply lin_case; [exact Ho | exact Hth | exact H1 | exact Np | exact Hs | exact E | exact Hin | exact HI].
+      - eapply lin_case; [exact Ho | exact Hth | exact H1 | exact Np | exact Hs | exact E | exact Hin | exact HI].
+      - eapply lin_case; [exact Ho | exact Hth | exact H1 | exact Np | exact Hs | exact E | exact Hin | exact HI].
+      - eapply lin_case; [exact Ho | exact Hth | exact H1 | exact Np | exact Hs | exact E | exact Hin | exact HI].
+      - eapply lin_case; [exact Ho | exact Hth | exact H1 | exact Np | exact Hs | exact E | exact Hin | exact HI].
+      - eapply const_case; [exists t; split; [rewrite Ho; eauto 6 | exact Hth] | rewrite Ho; exact H1 | exact Np | exact Hs | exact E | exact Hin | exact HI]. }
+    destruct P1 as (vs & ins_s1 & env1 & ins_c1 & vc & -> & Ev1 & M1 & X1 & F1 & R1 & S1 & In1).
+    destruct (finish_sem _ _ _ _ _ _ _ _ _ _ _ _ _ H2 Ev1 F1 R1 S1 (keys_ok_mono _ _ _ M1 Hk))
+      as (env' & vc' & Ev & M & X & F & Rr & Sr).
+    exists vs, ins_s1, env', ins_c1, vc'.
+    split; [reflexivity|]. split; [exact Ev|]. split; [eauto using mono_trans|]. split; [eauto using ext_trans|].
+    split; [exact F|]. split; [exact Rr|]. split; [exact Sr | exact In1].
+  Qed.
+
+  (* ---------- the loop ---------- *)
+  Lemma compile_loop_sem priv resh keys nodes : forall i flags omap out out' omap' ins0c env_c ins_c env_s ins_s env_s' ins_s',
+    compile_loop priv resh keys nodes i omap out = Ok (out', omap') ->
+    thm_frag nodes = true -> priv_spec nodes i flags priv ->
+    dfrom nodes (Some (env_s, ins_s)) = Some (env_s', ins_s') -> i = zlen env_s ->
+    evals ins0c out env_c ins_c -> inrel flags ins_s ins_c -> keys_ok keys env_c ->
+    Inv priv omap env_s env_c out ->
+    exists env_c' ins_c', evals ins0c out' env_c' ins_c' /\ mono env_c env_c' /\ Inv priv omap' env_s' env_c' out'.
+  Proof.
+    induction nodes as [|nd nodes IH]; intros i flags omap out out' omap' ins0c env_c ins_c env_s ins_s env_s' ins_s'
+                                             H Hf Hp Hs Hi E Hin Hk HI; cbn [compile_loop] in H.
+    - inversion H; subst. inversion Hs; subst. exists env_c, ins_c. split; [exact E|]. split; [apply mono_refl | exact HI].
+    - apply bind_ok in H as ([out1 nn] & H1 & H).
+      cbn [thm_frag forallb] in Hf. apply andb_true_iff in Hf as [Hf0 Hf].
+      destruct (priv_spec_cons _ _ _ _ _ Hp) as (flags' & Np & Hp').
+      rewrite dfrom_cons in Hs.
+      destruct (dstp (Some (env_s, ins_s)) nd) as [st1|] eqn:Hst; [|rewrite dfrom_none in Hs; discriminate].
+      destruct (compile_node_sem _ _ _ _ _ _ _ _ _ _ _ _ _ _ _ _ _ H1 Hf0 Np Hst E Hin Hk HI)
+        as (vs & ins_s1 & env_c1 & ins_c1 & vc & -> & Ev1 & M1 & X1 & F1 & R1 & S1 & In1).
+      destruct HI as [HL HI].
+      destruct (IH (i + 1) flags' (omap ++ [nn]) out1 out' omap' ins0c env_c1 ins_c1 (env_s ++ [vs]) ins_s1 env_s' ins_s'
+                  H Hf Hp' Hs) as (env_c' & ins_c' & Ev & M & HI').
+      + rewrite zlen_app, zlen_one. lia.
+      + exact Ev1.
+      + exact In1.
+      + eapply keys_ok_mono; eauto.
+      + split; [rewrite !zlen_app, !zlen_one; lia|].
+        intros j vs' Hj. pose proof (znth_range _ _ _ Hj) as Hr. rewrite zlen_app, zlen_one in Hr.
+        destruct (Z.eq_dec j (zlen env_s)) as [->|Hne].
+        * rewrite znth_last in Hj. inversion Hj; subst vs'. exists nn, vc.
+          split; [rewrite <- HL; apply znth_last|]. rewrite <- Hi. auto.
+        * apply znth_inj_app in Hj; [|lia]. destruct (HI _ _ Hj) as (k & vc0 & Hk0 & Hv0 & R0 & S0).
+          exists k, vc0. split; [now apply znth_app_l|]. split; [auto|]. split; [exact R0|].
+          intros Hm. eapply shty_ext; eauto.
+      + exists env_c', ins_c'. split; [exact Ev|]. split; [eauto using mono_trans | exact HI'].
+  Qed.
+
+  Lemma dfrom_bdeps nodes : forall e ins st', dfrom nodes (Some (e, ins)) = Some st' -> bdeps nodes (zlen e).
+  Proof.
+    induction nodes as [|nd nodes IH]; intros e ins st' H; cbn [bdeps]; [exact I|].
+    rewrite dfrom_cons in H.
+    destruct (dstp (Some (e, ins)) nd) as [[e1 i1]|] eqn:Hst; [|rewrite dfrom_none in H; discriminate].
+    split.
+    - intros Hni. destruct (dstep_noninput _ _ _ _ Hni Hst) as (vsl & v & Hm & _ & _).
+      apply mapM_ok_forall in Hm. eapply Forall_impl; [|exact Hm]. intros d (x & Hx). cbv beta. eauto using znth_range.
+    - destruct (dstep_inv R r0 radd rmul rsub atom catom one lin bil _ _ _ _ _ Hst) as (v & ->).
+      specialize (IH _ _ _ H). rewrite zlen_app, zlen_one in IH. exact IH.
+  Qed.
+
+  (* ---------- compile_graph ---------- *)
+  Definition keys_input (use_mul : bool) (kv0 kv1 kv2 : rv) : list rv :=
+    if use_mul then [RTup R [kv0; kv1; kv2]] else [].
+
+  Theorem compile_graph_correct nodes output flags out oo omap priv um :
+    compile_graph_map nodes output flags = Ok (out, oo, omap) ->
+    propagate_private_annotations nodes flags = Ok (priv, um) ->
+    thm_frag nodes = true ->
+    forall ins_s ins_c env_s kv0 kv1 kv2,
+    deval R r0 radd rmul rsub atom catom one lin bil nodes ins_s = Some env_s ->
+    inrel flags ins_s ins_c ->
+    exists env_c,
+      deval R r0 radd rmul rsub atom catom one lin bil out (keys_input um kv0 kv1 kv2 ++ ins_c) = Some env_c /\
+      forall j vs, znth env_s j = Ok vs ->
+        exists k vc, znth omap j = Ok k /\ znth env_c k = Ok vc /\ rel (mem j priv) vs vc.
+  Proof.
+    intros H Hppa Hf ins_s ins_c env_s kv0 kv1 kv2 Hs Hin.
+    unfold compile_graph_map in H. rewrite Hppa in H. cbn [bind] in H.
+    apply bind_ok in H as ([out0 keys] & H0 & H). apply bind_ok in H as (resh & _ & H).
+    apply bind_ok in H as ([out1 omap1] & HL & H). apply bind_ok in H as (oo' & _ & H). inversion H; subst; clear H.
+    unfold deval in Hs. destruct (dfrom nodes (Some ([], ins_s))) as [[es is']|] eqn:Hds; [|discriminate].
+    inversion Hs; subst es; clear Hs.
+    unfold propagate_private_annotations in Hppa. apply bind_ok in Hppa as ([[p m] f'] & Hl & Hppa). inversion Hppa; subst; clear Hppa.
+    destruct (ppa_loop_spec _ _ _ _ _ _ _ _ Hl) as [_ Hps].
+    { intros d Hd. discriminate. }
+    { exact (dfrom_bdeps _ _ _ _ Hds). }
+    assert (Init : exists env0, evals (keys_input um kv0 kv1 kv2 ++ ins_c) out0 env0 ins_c /\ keys_ok keys env0).
+    { destruct um; cbv iota in H0.
+      - apply bind_ok in H0 as ([o k] & He & H0). inversion H0; subst; clear H0.
+        destruct (emit_spec _ _ _ _ _ _ He) as (ts & t & _ & _ & -> & ->).
+        exists ([] ++ [RTup R [kv0; kv1; kv2]]). split.
+        + eapply evals_snoc_input; [apply evals_nil | reflexivity].
+        + intros k Hk. inversion Hk; subst. exists kv0, kv1, kv2. reflexivity.
+      - inversion H0; subst. exists []. split; [apply evals_nil | intros k Hk; discriminate]. }
+    destruct Init as (env0 & Ev0 & K0).
+    destruct (compile_loop_sem _ _ _ _ _ _ _ _ _ _ _ _ _ _ _ _ _ HL Hf Hps Hds eq_refl Ev0 Hin K0) as (env_c & ins_c' & Ev & _ & [_ HI]).
+    { split; [reflexivity|]. intros j vs Hj. destruct (znth_nil_false _ _ Hj). }
+    exists env_c. split.
+    - unfold deval. unfold MpcCompileBase.evals in Ev. rewrite Ev. reflexivity.
+    - intros j vs Hj. destruct (HI _ _ Hj) as (k & vc & A & B & C & _). eauto.
+  Qed.
 End Correct.
